@@ -135,7 +135,8 @@ def corpus():
             mk("map", 4, 0, [5, 5, 5, 1], ["exhaust"], 9, 4),
             mk("pbuf", 0, 0, [1, 2, 3], ["exhaust"], 1, 1),
             mk("genpar", 3, 0, [], ["exhaust"], 3, 8),
-            mk("buffer", 1, 2, [3, 1, 2], ["exhaust"], 7, 1)]
+            mk("buffer", 1, 2, [3, 1, 2], ["exhaust"], 7, 1),
+            mk("merge0", 1, 0, [], ["exhaust"], 17, 2)]        # MergeIterators() of no inputs: ends, delivers nothing
 
 
 # ---------------- the independent oracle --------------------------------------------------------
